@@ -39,6 +39,11 @@ def generate(rng, tier):
                         dr = rng.logu(0.02, 0.3)
                         c["xout"] = [dr * (i + 1) for i in range(len(c["xout"]))]
                         c["desc"]["fortran"] = True
+                    if rep % 4 == 1:  # an integer-valued (and integer-typed) r grid
+                        c["xout"] = [float(i + 1) for i in range(len(c["xout"]))]
+                        c["int_dtype"] = [False, False, True]
+                        c["desc"]["int_r_grid"] = True
+                        c["desc"].pop("fortran", None)
                     # physical-looking S(Q): positive at Qmin
                     c["desc"]["Qmin0"] = c["xin"][0] == 0.0
                     cases.append(c)
